@@ -13,15 +13,20 @@ demodir=$(dirname $demo)
 echo "demo: $demo"
 mod=.
 case "$demo" in ./cmd/hz/*|cmd/hz/*) mod=cmd/hz; demodir=${demodir#cmd/hz/}; demodir=${demodir#./cmd/hz/};; esac
+# the patch file is the source of truth (git stash is shared between worktrees: never use it)
+git checkout -- $files 2>/dev/null
+git apply patch.diff || { echo "patch.diff does not apply to HEAD"; exit 1; }
+other=$(git status --porcelain | grep '^ M' | awk '{print $2}' | grep -v -F -x "$(echo $files | tr ' ' '\n')")
+[ -n "$other" ] && echo "NOTE: other modified files in the worktree (ignored, reverted): $other" && git checkout -- $other
 (cd $mod && go build ./... ) || { echo "BUILD FAILS"; exit 1; }
 echo "--- demo WITH change (expect FAIL)"
 (cd $mod && go test -count=1 ./$demodir/ 2>&1 | tail -3)
 with=$( (cd $mod && go test -count=1 ./$demodir/ >/dev/null 2>&1); echo $?)
-git stash push -q -- $files
+git apply -R patch.diff
 echo "--- demo WITHOUT change (expect ok)"
 (cd $mod && go test -count=1 ./$demodir/ 2>&1 | tail -3)
 without=$( (cd $mod && go test -count=1 ./$demodir/ >/dev/null 2>&1); echo $?)
-git stash pop -q
+git apply patch.diff
 echo "--- package tests WITH change (excluding demo)"
 pk=""
 for f in $files; do d=$(dirname $f); case "$d" in cmd/hz/*) ;; *) pk="$pk ./$d/...";; esac; done
